@@ -206,7 +206,7 @@ var rec = ev.New(prop, "decorated-documents",
 	Require("comments", "escaped-quote", "marker-in-string", "eof-line-comment", "segmented")
 
 func TestDecorated(t *testing.T) {
-	ev.Rapid(t, "decorated-documents", 8000, 600000, func(t *rapid.T) {
+	ev.Rapid(t, "decorated-documents", 8000, 12000000, func(t *rapid.T) {
 		c := Case{Val: genVal(t, 0), Mode: rapid.IntRange(0, 1).Draw(t, "mode")}
 		nt := len(jsonref.Tokens(c.Val, c.Mode))
 		for i := 0; i <= nt; i++ {
